@@ -101,7 +101,26 @@ func (vc *VC) ensureSpec(sf *SpecFunc) *specInfo {
 	for i, p := range sf.Params {
 		ps = append(ps, fmt.Sprintf("(a_%s %s)", p.Name, psorts[i]))
 	}
-	if sf.Rec {
+	if sf.Opaque && !vc.oracle && !sf.Rec {
+		var ss, as []string
+		for _, k := range si.keys {
+			ss = append(ss, vc.heapSort[k])
+			as = append(as, "hp_"+mangle(k))
+		}
+		ss = append(ss, psorts...)
+		for _, p := range sf.Params {
+			as = append(as, "a_"+p.Name)
+		}
+		app := sx(si.name, as...)
+		vc.specDefs = append(vc.specDefs, fmt.Sprintf("(declare-fun %s (%s) %s)", si.name, strings.Join(ss, " "), vc.sortOf(si.ret)))
+		if len(ps) > 0 {
+			vc.specDefs = append(vc.specDefs, fmt.Sprintf("(assert (forall (%s) (! (= %s %s) :pattern (%s))))", strings.Join(ps, " "), app, body, app))
+		} else {
+			vc.specDefs = append(vc.specDefs, fmt.Sprintf("(assert (= %s %s))", app, body))
+		}
+	} else if sf.Rec && vc.oracle {
+		vc.specDefs = append(vc.specDefs, fmt.Sprintf("(define-fun-rec %s (%s) %s %s)", si.name, strings.Join(ps, " "), vc.sortOf(si.ret), body))
+	} else if sf.Rec {
 		// recursive spec functions are uninterpreted; their definition is
 		// available only through explicit `unfold` instances (no matching loops)
 		var ss []string
@@ -157,7 +176,7 @@ func (vc *VC) specCall(sf *SpecFunc, args []Expr, env *Env) TV {
 	} else {
 		t = sx(si.name, as...)
 	}
-	if sf.Rec || sf.Body == nil {
+	if sf.Rec || sf.Body == nil || sf.Opaque {
 		// macros (define-fun) expand to connectives and cannot serve as patterns
 		vc.notePat(env, t)
 	}
